@@ -122,6 +122,8 @@ structure Skeleton where
   reqLoopExitsOnReadErr      : Bool
   reqFrameFreshPerIteration  : Bool  -- the Request struct is declared inside the request loop body: the handler goroutines of different frames never share it
   respFrameFreshPerIteration : Bool  -- likewise the Response struct in the response loop
+  reqLoopBlocksOnlyOnRead    : Bool  -- outside the goroutines it spawns, the request loop's body has no channel operation, select, lock or wait (directly or through a local closure) besides the read and setErr
+  respLoopBlocksOnlyOnRead   : Bool  -- likewise the response loop
   /- ---------------- lookup ---------------- -/
   lkSplitOnDot               : Bool
   lkEmptyPathRejected        : Bool
@@ -136,6 +138,7 @@ structure Skeleton where
   lkRecoversPanics           : Bool  -- (repaired tree) lookup cannot panic out
   lkFallbackIsClosureManager : Bool  -- only fallback: MethodByName on r.local.wrapper
   lkFallbackRejectsNonFunc   : Bool
+  lkResolvesPerRequest       : Bool  -- the walk from r.local.wrappee is an unconditional top-level statement of the resolver and, with the fallback, the only source of `function` (no cache: resolution is a function of the object graph held NOW)
   lkClosureManagerMethods    : List String   -- exported methods of *closureManager (go/types)
   lkArgCountChecked          : Bool  -- NumIn() != len(req.Args)+1 → ErrInvalidArgsCount
   lkArgCountBeforeDecode     : Bool
@@ -195,6 +198,7 @@ structure Skeleton where
   stDecodeErrBeforeClose     : Bool
   stDecoderExitsOnErr        : Bool
   stAbortClosesDone          : Bool  -- (repaired tree) every context-done exit of the decoder records decodeErr and closes decodeDone before returning
+  stDoneClosedOncePerExit    : Bool  -- decodeDone is closed exactly once on every way out of the decoder goroutine (one deferred close and no other, or one close in front of each exit), and nowhere else
   stReadersSelectDone        : Bool
   stEncodeRequestOnly        : Bool  -- Message{Request:&b}
   stEncodeResponseOnly       : Bool  -- Message{Response:&b}
